@@ -506,6 +506,26 @@ func cgroupScenario(s *Sim, params map[string]string) {
 					if m.closeInv != 0 && m.closeInvAt <= limit {
 						continue
 					}
+					// The watcher compares with the count it read when it started:
+					// the first Metadata request of the member after the generation's
+					// OffsetFetch. A change that is already in that answer is no
+					// change to the watcher (the window is a round trip wide).
+					var fetchAt, baseAt time.Duration = -1, -1
+					for _, r := range cl.Journal {
+						if r.API == nil || clientIDOf(r) != m.clientID {
+							continue
+						}
+						if r.Hdr.APIKey == 9 && r.At <= gn.gotAt {
+							fetchAt, baseAt = r.At, -1
+						}
+						if r.Hdr.APIKey == 3 && fetchAt >= 0 && baseAt < 0 && r.At > fetchAt {
+							baseAt = r.At
+						}
+					}
+					if baseAt >= 0 && partChangeAt <= baseAt+slack {
+						s.Count("partition-change-before-watcher-baseline")
+						continue
+					}
 					if s.Now() > limit && (!gn.ended || gn.endAt > limit) {
 						end := "is still live"
 						if gn.ended {
